@@ -668,9 +668,14 @@ def encode_records(schema, msg, rng=None, knobs=None):
     knobs = knobs or {}
     m = schema.msgs[msg['ty']]
     recs = []
-    for f, s in zip(m.fields, msg['slots']):
+    for fi, (f, s) in enumerate(zip(m.fields, msg['slots'])):
+        if fi in msg.get('drop', ()):
+            continue                      # deliberately left off the wire (C11 generator)
         if s[0] == 'rep':
             vals = (s[2] or [])[:s[1]]
+            if knobs.get('empty_packed') and f.type in PACKABLE and rng.random() < 0.4:
+                # a packed record with zero elements: valid, contributes nothing
+                recs.append(enc_key(f.id, 2, rng, knobs.get('pad', False)) + b'\x00')
             if not vals:
                 continue
             packed = f.packed
